@@ -52,7 +52,7 @@ _TABLE = None
 def table():
     global _TABLE
     if _TABLE is None:
-        _TABLE = gen_tables.private_networks_table()
+        _TABLE = gen_tables.live_or_snapshot("private_networks_table", gen_tables.private_networks_table)
     return _TABLE
 
 
